@@ -1376,7 +1376,30 @@ impl Tera {
         Some(out)
     }
 
-    /// A canonical dump of everything `finalize_templates` derives, for the verification harness
+    /// Same as `verif_chunks` but with the instructions each chunk had before `Chunk::optimize` ran
+    /// (same compilation, so both listings can be aligned instruction by instruction)
+    pub fn verif_chunks_unoptimized(
+        &self,
+        template_name: &str,
+    ) -> Option<Vec<(String, Vec<String>)>> {
+        let tpl = self.templates.get(template_name)?;
+        let mut out = vec![("body".to_string(), tpl.chunk.verif_unoptimized.clone())];
+        let mut blocks: Vec<_> = tpl.blocks.iter().collect();
+        blocks.sort_by(|a, b| a.0.cmp(b.0));
+        for (name, chunk) in blocks {
+            out.push((format!("block:{name}"), chunk.verif_unoptimized.clone()));
+        }
+        let mut components: Vec<_> = tpl.components.iter().collect();
+        components.sort_by(|a, b| a.0.cmp(b.0));
+        for (name, (_, chunk)) in components {
+            out.push((format!("component:{name}"), chunk.verif_unoptimized.clone()));
+        }
+        Some(out)
+    }
+
+    /// A canonical dump of everything `finalize_templates` derives, for the verification harness.
+    /// Chunks are identified by the template they come from and their length: keyword arguments
+    /// are compiled in hash order, so listings are not stable across compilations.
     pub fn verif_digest(&self) -> String {
         use std::fmt::Write;
         let mut out = String::new();
@@ -1406,9 +1429,9 @@ impl Tera {
                 for (level, chunk) in lineage.iter().enumerate() {
                     writeln!(
                         out,
-                        "  lineage {block:?}[{level}] from {:?}: {:?}",
+                        "  lineage {block:?}[{level}] from {:?}: {} instructions",
                         chunk.name,
-                        chunk.verif_listing()
+                        chunk.len()
                     )
                     .unwrap();
                 }
@@ -1419,12 +1442,12 @@ impl Tera {
         for (name, (def, chunk)) in components {
             writeln!(
                 out,
-                "component {name:?} from {:?} kwargs={:?} rest={:?} metadata={:?}: {:?}",
+                "component {name:?} from {:?} kwargs={:?} rest={:?} metadata={:?}: {} instructions",
                 chunk.name,
                 def.kwargs,
                 def.rest_param_name,
                 def.metadata,
-                chunk.verif_listing()
+                chunk.len()
             )
             .unwrap();
         }
